@@ -299,12 +299,12 @@ PIPE_ASSUME = ['one simulated thread; nondeterminism = order of ready pumps, all
                'reference models exist for the 12 pipe types of the E-pipe catalogue; the sweep engine (esweep) adds 53 more pipe types (29 block pass-through / buffering / packetising types, 19 picture and sound filters, sources and bins, 5 transport stream pipes fed complete flow definitions and real picture / sound buffers) under model-free oracles: lifecycle (C01, C04), order / same payload / immediate delivery where the pipe type promises them, completeness after a drain (sinks that block the pump they are fed from and let go again, loop run dry, clock far ahead) and release of the blocked source pump for the 16 types documented never to drop (C05), option read-back plus a twin execution of the same history without its getters and without the setters the pipe rejected, whose outputs and events must be identical (C20)']
 for _p in ('C01', 'C04', 'C05', 'C20'):
     PROPS[_p] = {'engine': 'epipe', 'quick_time': 30, 'thorough_time': 600, 'rule': PIPE_RULE, 'assumptions': list(PIPE_ASSUME)}
-PROPS['C12'] = {'engine': 'epipe', 'engines': ['epipe', 'ethread'], 'quick_time': 30, 'thorough_time': 600,
+PROPS['C12'] = {'engine': 'epipe', 'engines': ['epipe', 'ethread', 'esweep'], 'quick_time': 30, 'thorough_time': 600,
     'rule': ('one case = a chain of 1-4 catalogue pipes (or a dup pipe) between the application and mock sinks, and a history of 5-30 operations: '
              'register / unregister up to 4 requests (sink latency, flow format) on the head pipe, provide an answer at a sink where a proxy is lodged '
              '(once or twice), set_output anywhere to NULL / back / a new sink, release a handle, data; probe providers answer at once or never; '
              'teardown with requests still registered or unregistered first. Distinct = distinct plan hash.'),
-    'assumptions': ['in-thread chains only: the cross-queue part of C12 is not covered by this check',
+    'assumptions': ['three engines: exact routing model over chains of the 12 E-pipe types (in-thread), worker pipes across queues (ethread), and bounds over the 53 sweep types: lodged at the current output between the requests seen travelling and those registered, nothing elsewhere, nothing after death, answers delivered once, no callback after unregister',
                     'request types exercised: sink latency and flow format']}
 PROPS['C20']['engines'] = ['epipe', 'estream', 'esweep']
 PROPS['C20']['quick_time'] = 45
